@@ -8,8 +8,8 @@ REPLAY_BIN = "replay_basen"
 # read by bin/mkmanifest
 META = {
     "category": "model_checking",
-    "text": "TLC explores the three transcribed decoder machines exhaustively over 7 character classes up to length 6 (quick) / 8 (thorough) and proves them equal to the RFC 4648 functions, index-safe and error-sticky; every explored text (415k quick) and every octet string over 4 boundary octets is replayed into the real Decoder / decode / SymbolConverter / encoders, and recorded runs on long random texts are validated by TLC against the machines.",
-    "note": "Trusted: TLC, the transcription of RFC 4648 in BaseN.tla, the harness executor. Only accept/reject and decoded octets are compared, not the error class. Texts beyond the explored lengths are sampled (recorded traces), not enumerated.",
+    "text": "TLC explores the three transcribed decoder machines exhaustively over 7 character classes up to length 6 (quick) / 8 (thorough) and proves them equal to the RFC 4648 functions, index-safe and error-sticky; every explored text (415k quick) and every octet string over 4 boundary octets is replayed into the real Decoder / decode / SymbolConverter / encoders, and recorded runs on long random texts are validated by TLC against the machines. Symbol level: the three SymbolConverters and the NSEC3 salt wrapper are transcribed call by call and explored over every Symbol kind (plain, simple escape, decimal escape, end of token) x value class (alphabet, padding, '-', other printable, non-printable, >= 0x80); TLC proves converter-over-symbols = RFC 4648 function over the characters the symbols denote (SymChar: a decimal escape never denotes a character); every explored sequence, every kind x octet value 0..255 at every group position, and malformed escape sequences are replayed through process_symbol/process_tail call by call, IterScanner convert_token/convert_entry, the zone-file reader (DS, NSEC3, OPENPGPKEY, NSEC3PARAM salt, SVCB ech) and the string API; recorded converter / IterScanner / Nsec3Salt::scan runs over random symbol sequences are validated by TLC.",
+    "note": "Trusted: TLC, the transcription of RFC 4648 in BaseN.tla, the reading of the Symbol documentation in SymChar, the harness executor. Only accept/reject and decoded octets are compared, not the error class. Texts beyond the explored lengths are sampled (recorded traces), not enumerated. The NSEC3 salt converter is private to Nsec3Salt::scan and is reached through the two real scanners only (symbols a parser can produce). Open: D_iter_bad_escape_ends_token (IterScanner truncates a token at a malformed escape).",
     "technique": "TLA+ spec (BaseN.tla) + TLC exhaustive; spec->impl case replay; impl->spec trace validation",
     "design_ref": "DESIGN.md §4 C18",
 }
@@ -27,6 +27,49 @@ def explain(ctx, dev):
         print(open(res.log).read()[-3000:])
     finally:
         os.remove(os.path.join(vlib.SPEC, "MC_BaseN_explain.cfg"))
+
+
+def sym_guard(path):
+    """Vacuity guard on the *inputs* of the symbol-level cases: every symbol
+    kind must occur in texts that reach each reader, decimal escapes of
+    alphabet / padding / '-' values included, and there must be accepted texts
+    written with simple escapes."""
+    import json
+    need = {"dec-alpha-it": 0, "dec-alpha-zf": 0, "dec-dash-salt": 0, "simple-ok-scan": 0,
+            "simple-ok-iscan": 0, "ech-dec-ok": 0, "salt-dash-ok": 0, "badesc-it": 0, "badesc-zf": 0,
+            "eot-direct": 0}
+    alnum = set(range(48, 58)) | set(range(65, 91)) | set(range(97, 123)) | {43, 47, 61}
+    with open(path) as f:
+        for line in f:
+            c = json.loads(line)
+            i, e = c["in"], c["exp"]
+            syms = i["syms"]
+            kinds = {s["k"] for s in syms}
+            dec_alpha = any(s["k"] == "d" and s["v"] in alnum for s in syms)
+            if dec_alpha and i["it"]:
+                need["dec-alpha-it"] += 1
+            if dec_alpha and i["zf"]:
+                need["dec-alpha-zf"] += 1
+            if i["codec"] == "b16" and any(s["k"] == "d" and s["v"] == 45 for s in syms) and i["one"] and i["zf"]:
+                need["dec-dash-salt"] += 1
+            if "s" in kinds and "ok" in e["scan"]:
+                need["simple-ok-scan"] += 1
+            if "s" in kinds and "ok" in e["iscan"]:
+                need["simple-ok-iscan"] += 1
+            u = e["users"]
+            if "d" in kinds and "ok" in u.get("ech_zf", {}):
+                need["ech-dec-ok"] += 1
+            if u.get("salt_zf") == {"ok": []} and syms:
+                need["salt-dash-ok"] += 1
+            if "x" in kinds and i["it"]:
+                need["badesc-it"] += 1
+            if "x" in kinds and i["zf"]:
+                need["badesc-zf"] += 1
+            if "e" in kinds and isinstance(e["steps"], list):
+                need["eot-direct"] += 1
+    missing = [k for k, v in need.items() if v == 0]
+    if missing:
+        raise vlib.ToolError("symbol-level generator is vacuous for: " + ", ".join(missing))
 
 
 def run(ctx):
@@ -62,6 +105,26 @@ def run(ctx):
                    coverage=False, cases_to=cases32)
     ctx.require_ok(deep, "MC_BaseN deep32")
     ctx.replay_cases("replay_basen", cases32, label="basen-deep32")
+    # 2c. the symbol level: the three SymbolConverters (+ the NSEC3 salt
+    # wrapper) explored over every symbol kind x value class, the law
+    # "converter over symbols = RFC 4648 function over the denoted characters",
+    # every symbol kind x octet value at every group position (probe), and
+    # malformed escape sequences; replayed through process_symbol/process_tail,
+    # IterScanner, the zone-file reader and the users (salt, OwnerHash, ech)
+    cases_sym = os.path.join(ctx.work, "cases-sym.ndjson")
+    sym = ctx.tlc("MC_BaseNSym", "MC_BaseNSym_thorough" if thorough else "MC_BaseNSym",
+                  workers=8, label="mc+gen-sym", coverage=False, cases_to=cases_sym)
+    ctx.require_ok(sym, "MC_BaseNSym")
+    sym_guard(cases_sym)
+    head = os.path.join(ctx.work, "head-sym.ndjson")
+    with open(cases_sym) as f, open(head, "w") as g:
+        for i, line in enumerate(f):
+            if i >= 50:
+                break
+            g.write(line)
+    rc, out, err, _ = ctx.run_bin("replay_basen", ["--selftest-perturb"], stdin_path=head)
+    ctx.selftest("perturbed symbol-level expectation is reported by replay_basen", "FAIL " in out)
+    ctx.replay_cases("replay_basen", cases_sym, label="basen-sym")
     # 3. I->S: recorded decoder runs on long random texts validated by TLC
     n_traces = 6 if thorough else 2
     for i in range(n_traces):
@@ -89,6 +152,22 @@ def run(ctx):
             ok2, _, _ = ctx.validate_trace("Trace_BaseN", "Trace_BaseN", bad, label="trace-selftest")
             ctx.states -= 0
             ctx.selftest("corrupted trace is rejected by Trace_BaseN", not ok2)
+            # the same for the symbol level: one process_symbol result flipped
+            bad2 = os.path.join(ctx.work, "trace-bad-sym.ndjson")
+            lines = open(tr).read().splitlines()
+            hit = False
+            for j, l in enumerate(lines):
+                o = json.loads(l)
+                if o["ev"] == "csym" and o["k"] != "e" and "ok" in o["res"]:
+                    o["res"] = {"err": True}
+                    lines[j] = json.dumps(o)
+                    hit = True
+                    break
+            if not hit:
+                raise vlib.ToolError("recorder produced no accepted process_symbol call")
+            open(bad2, "w").write("\n".join(lines) + "\n")
+            ok3, _, _ = ctx.validate_trace("Trace_BaseN", "Trace_BaseN", bad2, label="trace-selftest-sym")
+            ctx.selftest("corrupted process_symbol result is rejected by Trace_BaseN", not ok3)
     ctx.assume("character classes per codec: lowest/highest/mixed alphabet characters, lower case, '=', non-alphabet ASCII, non-ASCII")
     ctx.assume("error *class* is not compared, only accept/reject and decoded octets")
     ctx.assume("base32 standard alphabet is not implemented by the library; only base32hex is checked")
